@@ -389,6 +389,16 @@ def scenarios_c06():
     out.append(('mixed post | post existing', {
         'A': post_allocs({K3: (a3, 'null', 'pA'), K2: (a2, 'cur', 'pA')}),
         'B': post_allocs({K2: ({R: {'VCPU': 1}}, 'cur', 'pB')})}))
+    # clearing writes in flight together
+    out.append(('existing: put-clear|put-clear identical', {
+        'A': put_alloc(K1, {}, 'cur', 'pA'),
+        'B': put_alloc(K1, {}, 'cur', 'pA')}))
+    out.append(('existing: post-clear + new|put-clear', {
+        'A': post_allocs({K1: ({}, 'cur', 'pA'), K3: (a3, 'null', 'pA')}),
+        'B': put_alloc(K1, {}, 'cur', 'pA')}))
+    out.append(('existing: put identical|put identical', {
+        'A': put_alloc(K1, a2, 'cur', 'pA'),
+        'B': put_alloc(K1, a2, 'cur', 'pA')}))
     out.append(('new: three writers null', {
         'A': put_alloc(K3, a1, 'null', 'pA'),
         'B': put_alloc(K3, a2, 'null', 'pB'),
